@@ -239,6 +239,52 @@ Corollary nested_agrees_oracle pre ctxs ops1 o0 obs1 m nops called inside ndone 
 Proof. intro H. apply nested_oracle_sound. apply (nested_agrees_spec _ _ _ _ _ _ _ _ inside). exact H. Qed.
 
 (* ===================================================================================== *)
+(* the watcher ends with the pool, at every look of every script                            *)
+
+(* In every settled state of a scripted run the watcher goroutine has returned exactly when the
+   pool's context is done - whatever the members are doing (live, never ending, ended): this is
+   what [leak = false] asks of the implementation at each look that finds the pool done. *)
+Lemma sim_watcher s r : Sim s r -> watcher_gone s = ctx_done s.
+Proof.
+  intros [[I _ _ _ _ _ _] _]. unfold watcher_gone.
+  destruct (ctx_done s) eqn:Hd.
+  - assert (Hp : pc s = W_done) by (apply (inv_done s I); exact Hd). rewrite Hp. reflexivity.
+  - destruct (pc s) eqn:Hp; try reflexivity.
+    assert (X : ctx_done s = true) by (apply (inv_done s I); exact Hp).
+    rewrite X in Hd. discriminate Hd.
+Qed.
+
+Fixpoint script_states (s : state) (ops : list sop) : list state :=
+  match ops with
+  | [] => []
+  | op :: ops' => do_op s op :: script_states (do_op s op) ops'
+  end.
+
+Lemma script_states_watcher ops : forall s r,
+  Sim s r -> Forall (fun s' => watcher_gone s' = ctx_done s') (script_states s ops).
+Proof.
+  induction ops as [|op ops IH]; intros s r S; cbn [script_states]; constructor.
+  - apply (sim_watcher _ (ref_step r op)). apply (sim_step s r op S).
+  - apply (IH _ (ref_step r op)). apply (sim_step s r op S).
+Qed.
+
+Theorem script_watcher_ends_with_pool pre ctxs ops :
+  let s0 := settle (new_pool pre ctxs) in
+  Forall (fun s => watcher_gone s = ctx_done s)
+         (s0 :: script_states s0 (ops ++ end_all (pre ++ ctxs ++ op_ids ops))).
+Proof.
+  cbn zeta. pose proof (sim_init pre ctxs) as S0. constructor.
+  - apply (sim_watcher _ _ S0).
+  - apply (script_states_watcher _ _ _ S0).
+Qed.
+
+(* Cancel with a member that never ends: done, Size 0, the watcher gone - and it stays so. *)
+Example cancel_with_never_ending_member :
+  let s := script_end (settle (new_pool [] [90%Z; 1%Z])) [SEnd 1%Z; SCancel] in
+  ctx_done s = true /\ watcher_gone s = true /\ size s = 0%Z /\ is_ended s 90%Z = false.
+Proof. vm_compute. repeat split. Qed.
+
+(* ===================================================================================== *)
 (* concrete instances (non-vacuity, and what the oracle rejects)                            *)
 
 Local Open Scope Z_scope.
